@@ -1,16 +1,20 @@
 (* C17, tree-level consumers, part 2: the unused-variable analyser (Model/UnusedVar.v, C15) on trees
-   that are equal up to the letter case of words -- for ALL trees satisfying dot_ok, no bounds.
+   that are equal up to the letter case of words -- for ALL trees, no guard, no bounds.
 
-     unusedvar_sim                 node_sim f f' -> dot_ok f = true -> the same diagnostics in the same
-                                   order (severity, class, range equal; printed name equal ignoring case)
+     unusedvar_sim                 node_sim f f' -> the same diagnostics in the same order (severity, class,
+                                   range equal; printed name equal ignoring case)
      unusedvar_exact               + declarations left as written -> the reports are EQUAL
-     unusedvar_dot_guard_needed    dot_ok cannot be dropped (an artificial tree: a later operand of a
-                                   `.` starting where the left operand starts)
+     unusedvar_old_dot_guard_needed  the analyser before the repair of tools/c15_proposed_fix.diff
+                                   (UnusedVar.analyze_old) needed the guard dot_ok: is_left_node compared
+                                   identifier AND start position of the left operand with exact string
+                                   equality (an artificial tree: a later operand of a `.` starting where
+                                   the left operand starts); the analyser as it is agrees on those trees
      unusedvar_exact_key_refuted   the analyser before /repo e5fd419 (key = the spelling) is case-sensitive
 
-   dot_ok is true of every parsed tree (the parser layer); it is needed because is_left_node compares
-   identifier AND start position of the left operand with exact string equality. *)
+   Since the repair the analyser decides "member position" from the place of a node in the tree, not from
+   positions and spellings: the guard dot_ok of the former statements is gone. *)
 From GoldV Require Import Base Tokens Keywords Lexer AstKinds Tree Recase RecaseBase RecaseOutline UnusedVar.
+From GoldV Require UnusedVarProofs.
 
 (* ---- the walker ---- *)
 Lemma walk_eq p n : walk p n = (p, n) :: walk_list n (nchildren n).
@@ -20,46 +24,10 @@ Proof.
   induction ch as [|c ch IH]; cbn [walk_list]; [reflexivity|]. f_equal. exact IH.
 Qed.
 
-(* ---- dot_ok ---- *)
-Lemma dot_ok_inv n : dot_ok n = true -> dot_ok1 n = true /\ Forall (fun c => dot_ok c = true) (nchildren n).
-Proof.
-  destruct n as [k id raw rg at_ ch]. cbn [dot_ok nchildren]. intro H. apply andb_true_iff in H as [H1 H2].
-  split; [exact H1|]. clear H1. induction ch as [|c ch IH]; constructor.
-  - apply andb_true_iff in H2. tauto.
-  - apply IH. apply andb_true_iff in H2. tauto.
-Qed.
-
-Lemma pos_eqb_same a b : Recase.pos_eqb a b = UnusedVar.pos_eqb a b.
-Proof. reflexivity. Qed.
-
 Lemma op_is_dot_sim p p' : node_sim p p' -> op_is_dot p = op_is_dot p'.
 Proof.
   intro H. unfold op_is_dot. destruct (attr_tok_rel K_op _ _ H) as [|t t' Ht]; [reflexivity|].
   rewrite (ts_ty _ _ Ht). reflexivity.
-Qed.
-
-Lemma ident_pos_eqb_refl l : ident_pos_eqb l l = true.
-Proof.
-  unfold ident_pos_eqb, UnusedVar.pos_eqb. rewrite str_eqb_refl, !N.eqb_refl. reflexivity.
-Qed.
-
-(* is_left_node of a node and one of its children is the same in both trees *)
-Lemma left_children p p' : node_sim p p' -> dot_ok1 p = true ->
-  Forall2 (fun c c' => is_left_node p c = is_left_node p' c') (nchildren p) (nchildren p').
-Proof.
-  intros H Hd. unfold is_left_node. rewrite <- (node_sim_is_kind _ _ _ H), <- (op_is_dot_sim _ _ H).
-  pose proof (node_sim_children _ _ H) as Hc.
-  destruct (is_kind KAstBinaryOp p) eqn:Ek; [|eapply Forall2_impl; [|exact Hc]; reflexivity].
-  destruct (op_is_dot p) eqn:Eo; cbn [negb]; [|eapply Forall2_impl; [|exact Hc]; reflexivity].
-  unfold dot_ok1, dot_node in Hd. rewrite Ek in Hd. fold (op_is_dot p) in Hd. rewrite Eo in Hd.
-  cbn [andb negb orb] in Hd.
-  destruct Hc as [|l l' rest rest' Hl Hrest]; constructor.
-  - rewrite !ident_pos_eqb_refl. reflexivity.
-  - clear Ek Eo. induction Hrest as [|c c' rest rest' Hcc Hrest IH]; constructor.
-    + cbn [forallb] in Hd. apply andb_true_iff in Hd as [Hd _]. apply negb_true_iff in Hd.
-      rewrite pos_eqb_same in Hd. unfold ident_pos_eqb.
-      rewrite <- (node_sim_range _ _ Hl), <- (node_sim_range _ _ Hcc), Hd, !andb_false_r. reflexivity.
-    + apply IH. cbn [forallb] in Hd. apply andb_true_iff in Hd. tauto.
 Qed.
 
 Lemma is_string_lit_sim n n' : node_sim n n' -> is_string_lit n = is_string_lit n'.
@@ -73,6 +41,36 @@ Proof.
   intro H. unfold ident_range. destruct (attr_tok_rel K_ident _ _ H) as [|t t' Ht].
   - apply node_sim_range. exact H.
   - apply Ht.
+Qed.
+
+Lemma child_member_sim n n' mb first : node_sim n n' -> child_member n mb first = child_member n' mb first.
+Proof.
+  intro H. unfold child_member, is_dot_op. rewrite !(node_sim_is_kind _ _ _ H), (op_is_dot_sim _ _ H). reflexivity.
+Qed.
+
+(* the names the analyser looks up at corresponding nodes differ in letter case only *)
+Lemma names_here_sim mb n n' : node_sim n n' -> Forall2 ci_eq (names_here mb n) (names_here mb n').
+Proof.
+  intro H. unfold names_here. rewrite <- !(node_sim_is_kind _ _ _ H), <- (is_string_lit_sim _ _ H).
+  destruct (is_kind KAstTerminal n).
+  - destruct (negb mb && negb (is_string_lit n)); constructor; [apply node_sim_ident; exact H|constructor].
+  - apply Forall2_app2.
+    + destruct (is_kind KAstMethodCall n && negb mb); constructor; [apply node_sim_ident; exact H|constructor].
+    + destruct (is_kind KAstForBlock n); [|constructor].
+      destruct (attr_tok_rel K_ident _ _ H) as [|t t' Ht]; constructor; [apply Ht|constructor].
+Qed.
+
+Lemma mention_names_sim : forall n n' mb, node_sim n n' -> Forall2 ci_eq (mention_names mb n) (mention_names mb n').
+Proof.
+  intro n. pattern n. apply node_ind'. clear n. intros k id raw rg at_ ch IHn n' mb Hs.
+  rewrite !UnusedVarProofs.mention_names_eq. apply Forall2_app2; [apply names_here_sim; exact Hs|].
+  unfold UnusedVarProofs.is_term. rewrite <- (node_sim_is_kind _ _ _ Hs).
+  destruct (is_kind KAstTerminal (Node k id raw rg at_ ch)); [constructor|].
+  pose proof (node_sim_children _ _ Hs) as HC. cbn [nchildren] in HC |- *.
+  revert Hs HC. generalize (Node k id raw rg at_ ch). intros N Hs HC. generalize true.
+  revert IHn. induction HC as [|c c' l l' Hc Hrest IH]; intros IHn first; cbn [UnusedVarProofs.mn_list]; [constructor|].
+  inversion IHn; subst. apply Forall2_app2; [|apply IH; assumption].
+  rewrite <- (child_member_sim _ _ _ _ Hs). auto.
 Qed.
 
 (* ---- the analyser on related states; RN relates the printed names ---- *)
@@ -128,18 +126,21 @@ Section Rel.
     intro H. destruct (check_unused_rel _ _ H) as [_ H2]. split; cbn [reset cur diags]; [constructor|exact H2].
   Qed.
 
-  Lemma notify_terminal_rel s s' p p' n n' : uv_st_rel s s' -> node_sim n n' ->
-    is_left_node p n = is_left_node p' n' ->
-    uv_st_rel (notify_terminal upper s p n) (notify_terminal upper s' p' n').
+  Lemma notify_mention_rel s s' nm nm' : uv_st_rel s s' -> ci_eq nm nm' ->
+    uv_st_rel (notify_mention upper s nm) (notify_mention upper s' nm').
   Proof.
-    intros Hs Hn Hl. unfold notify_terminal. rewrite <- (is_string_lit_sim _ _ Hn), <- Hl.
-    destruct (is_string_lit n); [exact Hs|].
-    replace (upper (nident n')) with (upper (nident n)) by (apply node_sim_ident; exact Hn).
+    intros Hs Hn. unfold notify_mention. replace (upper nm') with (upper nm) by exact Hn.
     destruct Hs as [H1 H2].
-    destruct (alookup_rel (upper (nident n)) _ _ H1) as [|v v' Hv]; [split; assumption|].
-    destruct (is_left_node p n); [|split; assumption].
+    destruct (alookup_rel (upper nm) _ _ H1) as [|v v' Hv]; [split; assumption|].
     split; cbn [cur diags]; [|exact H2]. apply ainsert_rel; [exact H1|].
     destruct Hv as [A [B C]]. repeat split; cbn [vuses vrange vname]; auto. rewrite A. reflexivity.
+  Qed.
+
+  Lemma mentions_rel l l' : Forall2 ci_eq l l' -> forall s s', uv_st_rel s s' ->
+    uv_st_rel (fold_left (notify_mention upper) l s) (fold_left (notify_mention upper) l' s').
+  Proof.
+    induction 1 as [|a a' l l' Ha Hl IH]; intros s s' Hs; cbn [fold_left]; [exact Hs|].
+    apply IH. apply notify_mention_rel; assumption.
   Qed.
 
   Lemma notify_local_var_rel s s' n n' : uv_st_rel s s' -> node_sim n n' -> RN (nident n) (nident n') ->
@@ -154,37 +155,63 @@ Section Rel.
       repeat split; cbn [dsev dclass drange dkey]; auto.
   Qed.
 
-  (* corresponding visit calls *)
-  Definition ev_rel (e e' : ev) : Prop :=
-    node_sim (snd e) (snd e') /\
-    is_left_node (fst e) (snd e) = is_left_node (fst e') (snd e') /\
-    (is_kind KAstLocalVariableDeclaration (snd e) = true -> RN (nident (snd e)) (nident (snd e'))).
+  (* corresponding nodes *)
+  Definition wrel (n n' : node) : Prop := node_sim n n' /\ X n n'.
 
-  Lemma step_rel s s' e e' : uv_st_rel s s' -> ev_rel e e' -> uv_st_rel (step upper s e) (step upper s' e').
+  Lemma wrel_children n n' : wrel n n' -> Forall2 wrel (nchildren n) (nchildren n').
   Proof.
-    destruct e as [p n], e' as [p' n']. intros Hs [Hn [Hl Hr]]. cbn [fst snd] in Hn, Hl, Hr.
-    unfold step. cbn [ev_parent ev_node fst snd]. rewrite <- !(node_sim_is_kind _ _ _ Hn).
-    assert (H1 : uv_st_rel (if is_kind KAstProcedure n then reset s else s)
-                           (if is_kind KAstProcedure n then reset s' else s')).
-    { destruct (is_kind KAstProcedure n); [apply reset_rel|]; exact Hs. }
-    revert H1. generalize (if is_kind KAstProcedure n then reset s else s)
-                          (if is_kind KAstProcedure n then reset s' else s'). intros s1 s1' H1.
-    assert (H2 : uv_st_rel (if is_kind KAstFunction n then reset s1 else s1)
-                           (if is_kind KAstFunction n then reset s1' else s1')).
-    { destruct (is_kind KAstFunction n); [apply reset_rel|]; exact H1. }
-    revert H2. generalize (if is_kind KAstFunction n then reset s1 else s1)
-                          (if is_kind KAstFunction n then reset s1' else s1'). intros s2 s2' H2.
-    assert (H3 : uv_st_rel (if is_kind KAstTerminal n then notify_terminal upper s2 p n else s2)
-                           (if is_kind KAstTerminal n then notify_terminal upper s2' p' n' else s2')).
-    { destruct (is_kind KAstTerminal n); [apply notify_terminal_rel; assumption|exact H2]. }
-    revert H3. generalize (if is_kind KAstTerminal n then notify_terminal upper s2 p n else s2)
-                          (if is_kind KAstTerminal n then notify_terminal upper s2' p' n' else s2').
-    intros s3 s3' H3.
-    destruct (is_kind KAstLocalVariableDeclaration n); [|exact H3].
+    intros [Hs Hx]. apply Forall2_and; [exact (node_sim_children _ _ Hs)|exact (X_children _ _ Hs Hx)].
+  Qed.
+
+  Lemma subnodes_rel : forall n n', wrel n n' -> Forall2 wrel (subnodes n) (subnodes n').
+  Proof.
+    intro n. pattern n. apply node_ind'. clear n. intros k id raw rg at_ ch IHn n' Hw.
+    rewrite !UnusedVarProofs.subnodes_eq. constructor; [exact Hw|].
+    pose proof (wrel_children _ _ Hw) as HC. cbn [nchildren] in HC |- *. clear Hw.
+    revert IHn. induction HC as [|c c' l l' Hc Hrest IH]; intro IHn; cbn [flat_map]; [constructor|].
+    inversion IHn; subst. apply Forall2_app2; [|apply IH; assumption]. auto.
+  Qed.
+
+  Lemma collect_rel b b' s s' : wrel b b' -> uv_st_rel s s' -> uv_st_rel (collect upper s b) (collect upper s' b').
+  Proof.
+    intros Hb. unfold collect. generalize (subnodes_rel _ _ Hb). generalize (subnodes b) (subnodes b'). clear Hb.
+    intros l l' Hl. revert s s'. induction Hl as [|n n' l l' [Hn Hx] Hl IH]; intros s s' Hs; cbn [fold_left]; [exact Hs|].
+    apply IH. rewrite <- (node_sim_is_kind _ _ _ Hn).
+    destruct (is_kind KAstLocalVariableDeclaration n) eqn:E; [|exact Hs].
     apply notify_local_var_rel; auto.
   Qed.
 
-  Lemma fold_rel l l' : Forall2 ev_rel l l' -> forall s s', uv_st_rel s s' ->
+  Lemma method_body_rel m m' : wrel m m' -> opt_rel wrel (method_body m) (method_body m').
+  Proof.
+    intro Hm. unfold method_body. induction (wrel_children _ _ Hm) as [|c c' l l' Hc Hl IH]; cbn [find]; [constructor|].
+    rewrite <- (node_sim_is_kind _ _ _ (proj1 Hc)). destruct (is_kind KAstMethodBody c); [constructor; exact Hc|exact IH].
+  Qed.
+
+  Lemma analyze_method_rel s s' m m' : uv_st_rel s s' -> wrel m m' ->
+    uv_st_rel (analyze_method upper s m) (analyze_method upper s' m').
+  Proof.
+    intros [_ Hd] Hm. unfold analyze_method.
+    assert (H0 : uv_st_rel (mkSt [] (diags s)) (mkSt [] (diags s'))) by (split; [constructor|exact Hd]).
+    assert (H1 : uv_st_rel
+      (match method_body m with
+       | Some b => fold_left (notify_mention upper) (mention_names false b) (collect upper (mkSt [] (diags s)) b)
+       | None => mkSt [] (diags s) end)
+      (match method_body m' with
+       | Some b => fold_left (notify_mention upper) (mention_names false b) (collect upper (mkSt [] (diags s')) b)
+       | None => mkSt [] (diags s') end)).
+    { destruct (method_body_rel _ _ Hm) as [|b b' Hb]; [exact H0|].
+      apply mentions_rel; [apply mention_names_sim; exact (proj1 Hb)|apply collect_rel; assumption]. }
+    destruct (check_unused_rel _ _ H1) as [_ H2]. split; cbn [cur diags]; [constructor|exact H2].
+  Qed.
+
+  Lemma step_rel s s' e e' : uv_st_rel s s' -> wrel (snd e) (snd e') -> uv_st_rel (step upper s e) (step upper s' e').
+  Proof.
+    intros Hs Hn. unfold step, is_method, ev_node. rewrite <- !(node_sim_is_kind _ _ _ (proj1 Hn)).
+    destruct (is_kind KAstProcedure (snd e) || is_kind KAstFunction (snd e)); [|exact Hs].
+    apply analyze_method_rel; assumption.
+  Qed.
+
+  Lemma fold_rel l l' : Forall2 (fun e e' => wrel (snd e) (snd e')) l l' -> forall s s', uv_st_rel s s' ->
     uv_st_rel (fold_left (step upper) l s) (fold_left (step upper) l' s').
   Proof.
     induction 1 as [|e e' l l' He Hl IH]; intros s s' Hs; cbn [fold_left]; [exact Hs|].
@@ -192,36 +219,21 @@ Section Rel.
   Qed.
 
   (* the walks visit corresponding nodes *)
-  Definition wrel (n n' : node) : Prop := node_sim n n' /\ dot_ok n = true /\ X n n'.
-
-  Lemma wrel_children n n' : wrel n n' ->
-    Forall2 (fun c c' => wrel c c' /\ is_left_node n c = is_left_node n' c') (nchildren n) (nchildren n').
+  Lemma walk_rel : forall n n', wrel n n' -> forall p p',
+    Forall2 (fun e e' => wrel (snd e) (snd e')) (walk p n) (walk p' n').
   Proof.
-    intros [Hs [Hd Hx]]. destruct (dot_ok_inv _ Hd) as [Hd1 Hdc].
-    pose proof (left_children _ _ Hs Hd1) as HL.
-    pose proof (node_sim_children _ _ Hs) as HS. pose proof (X_children _ _ Hs Hx) as HX.
-    revert HL HX Hdc. induction HS as [|c c' l l' Hc Hl IH]; intros HL HX Hdc; [constructor|].
-    inversion HL; subst. inversion HX; subst. inversion Hdc; subst.
-    constructor; [|apply IH; assumption]. split; [|assumption]. split; [exact Hc|]. split; assumption.
+    intro n. pattern n. apply node_ind'. clear n. intros k id raw rg at_ ch IHn n' Hw p p'.
+    rewrite !walk_eq. constructor; [exact Hw|].
+    pose proof (wrel_children _ _ Hw) as HC. cbn [nchildren] in HC |- *. clear Hw.
+    revert HC. generalize (Node k id raw rg at_ ch). intros N HC.
+    revert IHn. induction HC as [|c c' l l' Hc Hrest IH]; intro IHn; cbn [walk_list]; [constructor|].
+    inversion IHn; subst. apply Forall2_app2; [|apply IH; assumption]. auto.
   Qed.
 
-  Lemma walk_rel : forall n n', wrel n n' -> forall p p', is_left_node p n = is_left_node p' n' ->
-    Forall2 ev_rel (walk p n) (walk p' n').
-  Proof.
-    intro n. pattern n. apply node_ind'. clear n. intros k id raw rg at_ ch IHn n' Hw p p' Hl.
-    rewrite !walk_eq. constructor.
-    - destruct Hw as [Hs [_ Hx]]. split; [exact Hs|]. split; [exact Hl|]. cbn [fst snd]. intro E.
-      apply X_name; assumption.
-    - pose proof (wrel_children _ _ Hw) as HC. cbn [nchildren] in HC |- *. clear Hw Hl.
-      revert HC. generalize (Node k id raw rg at_ ch). intros N HC.
-      revert IHn. induction HC as [|c c' l l' [Hc Hlc] Hrest IH]; intro IHn; cbn [walk_list]; [constructor|].
-      inversion IHn; subst. apply Forall2_app2; [|apply IH; assumption]. auto.
-  Qed.
-
-  Lemma events_rel f f' : wrel f f' -> Forall2 ev_rel (events f) (events f').
+  Lemma events_rel f f' : wrel f f' -> Forall2 (fun e e' => wrel (snd e) (snd e')) (events f) (events f').
   Proof.
     intro Hw. unfold events. pose proof (wrel_children _ _ Hw) as HC.
-    induction HC as [|c c' l l' [Hc Hlc] Hrest IH]; cbn [walk_list]; [constructor|].
+    induction HC as [|c c' l l' Hc Hrest IH]; cbn [walk_list]; [constructor|].
     apply Forall2_app2; [|exact IH]. apply walk_rel; assumption.
   Qed.
 
@@ -229,7 +241,7 @@ Section Rel.
   Proof.
     intro Hw. unfold analyze, run.
     assert (H0 : uv_st_rel st0 st0) by (split; constructor).
-    apply (check_unused_rel _ _ (fold_rel _ _ (events_rel _ _ Hw) _ _ H0)).
+    apply (fold_rel _ _ (events_rel _ _ Hw) _ _ H0).
   Qed.
 End Rel.
 
@@ -238,29 +250,29 @@ End Rel.
 (* severity, class, range equal; the printed name equal ignoring case *)
 Definition diag_sim : diag -> diag -> Prop := diag_rel ci_eq.
 
-Theorem unusedvar_sim : forall f f', node_sim f f' -> dot_ok f = true ->
+Theorem unusedvar_sim : forall f f', node_sim f f' ->
   Forall2 diag_sim (analyze_today f) (analyze_today f').
 Proof.
-  intros f f' Hs Hd. unfold analyze_today, key_today, diag_sim.
+  intros f f' Hs. unfold analyze_today, key_today, diag_sim.
   apply (analyze_rel ci_eq (ci_eq_refl []) (fun _ _ => True)).
   - intros n n' Hn _. eapply Forall2_impl; [|exact (node_sim_children _ _ Hn)]. auto.
   - intros n n' Hn _ _. apply node_sim_ident. exact Hn.
-  - split; [exact Hs|]. split; [exact Hd|exact I].
+  - split; [exact Hs|exact I].
 Qed.
 
 Lemma diag_rel_eq d d' : diag_rel eq d d' -> d = d'.
 Proof. destruct d as [a b c e], d' as [a' b' c' e']. unfold diag_rel. cbn [dsev dclass drange dkey]. intros [-> [-> [-> ->]]]. reflexivity. Qed.
 
 (* declarations left as written (KAstLocalVariableDeclaration is a decl_kind): the reports are equal *)
-Theorem unusedvar_exact : forall f f', node_sim f f' -> decl_exact f f' -> dot_ok f = true ->
+Theorem unusedvar_exact : forall f f', node_sim f f' -> decl_exact f f' ->
   analyze_today f = analyze_today f'.
 Proof.
-  intros f f' Hs He Hd. unfold analyze_today, key_today. apply Forall2_eq.
+  intros f f' Hs He. unfold analyze_today, key_today. apply Forall2_eq.
   eapply Forall2_impl; [apply diag_rel_eq|].
   apply (analyze_rel eq eq_refl decl_exact).
   - intros n n' _ Hx. apply decl_exact_children. exact Hx.
   - intros n n' _ Hx E. apply (proj1 (decl_exact_here _ _ Hx)). eapply is_kind_decl; [exact E|reflexivity].
-  - split; [exact Hs|]. split; [exact Hd|exact He].
+  - split; [exact Hs|exact He].
 Qed.
 
 (* ================= witnesses ================= *)
@@ -281,20 +293,23 @@ Definition dw (ref : str) : node :=
           Node KAstMethodCall [120] 22 (rg 2 1 2 2) [] [];
           Node KAstTerminal ref 22 (rg 2 1 2 2) [(K_token, AT (tk 22 2 1 2 TIdentifier ref))] []]]]].
 
-Theorem unusedvar_dot_guard_needed : exists f f', node_sim f f' /\ decl_exact f f' /\ analyze_today f <> analyze_today f'.
+(* the analyser as it was before the repair: the guard dot_ok was needed *)
+Theorem unusedvar_old_dot_guard_needed : exists f f', node_sim f f' /\ decl_exact f f' /\
+  analyze_old key_today f <> analyze_old key_today f' /\ analyze_today f = analyze_today f'.
 Proof.
   exists (dw [120]), (dw [88]). split; [apply node_simb_sound; vm_compute; reflexivity|].
   split; [apply decl_exactb_sound; vm_compute; reflexivity|].
-  intro H. vm_compute in H. discriminate H.
+  split; [intro H; vm_compute in H; discriminate H|vm_compute; reflexivity].
 Qed.
 
-(* not even the similarity survives without the guard: the number of diagnostics differs *)
-Example unusedvar_dot_guard_needed_sim :
+(* not even the similarity survived without the guard: the number of diagnostics differed *)
+Example unusedvar_old_dot_guard_needed_sim :
   node_sim (dw [120]) (dw [88]) /\ dot_ok (dw [120]) = false /\
-  length (analyze_today (dw [120])) <> length (analyze_today (dw [88])).
+  length (analyze_old key_today (dw [120])) <> length (analyze_old key_today (dw [88])) /\
+  length (analyze_today (dw [120])) = length (analyze_today (dw [88])).
 Proof.
   split; [apply node_simb_sound; vm_compute; reflexivity|]. split; [vm_compute; reflexivity|].
-  vm_compute. discriminate.
+  vm_compute. split; [discriminate|reflexivity].
 Qed.
 
 From Coq Require Import String.
@@ -313,7 +328,7 @@ EndProc"%string.
 
 (* the analyser before e5fd419 keyed the map by the spelling itself *)
 Theorem unusedvar_exact_key_refuted : exists f f',
-  node_sim f f' /\ decl_exact f f' /\ dot_ok f = true /\ analyze (fun s => s) f <> analyze (fun s => s) f'.
+  node_sim f f' /\ decl_exact f f' /\ dot_ok f = true /\ analyze_old (fun s => s) f <> analyze_old (fun s => s) f'.
 Proof.
   exists uw, uw'. split; [apply node_simb_sound; vm_compute; reflexivity|].
   split; [apply decl_exactb_sound; vm_compute; reflexivity|]. split; [vm_compute; reflexivity|].
@@ -329,12 +344,11 @@ Definition uw2' : node := parse_text "proc p
 endproc"%string.
 
 Example unusedvar_decl_exact_needed :
-  node_sim uw2 uw2' /\ dot_ok uw2 = true /\ analyze_today uw2 <> analyze_today uw2' /\
+  node_sim uw2 uw2' /\ analyze_today uw2 <> analyze_today uw2' /\
   Forall2 diag_sim (analyze_today uw2) (analyze_today uw2').
 Proof.
   assert (A : node_sim uw2 uw2') by (apply node_simb_sound; vm_compute; reflexivity).
-  assert (B : dot_ok uw2 = true) by (vm_compute; reflexivity).
-  split; [exact A|]. split; [exact B|]. split; [intro H; vm_compute in H; discriminate H|].
+  split; [exact A|]. split; [intro H; vm_compute in H; discriminate H|].
   apply unusedvar_sim; assumption.
 Qed.
 
